@@ -132,10 +132,22 @@ class Module:
                 if e.id in env:
                     return env[e.id]
                 raise Skip
-            if isinstance(e, ast.List):
-                return [ev(x) for x in e.elts]
-            if isinstance(e, ast.Tuple):
-                return tuple(ev(x) for x in e.elts)
+            if isinstance(e, (ast.List, ast.Tuple)):
+                out = []
+                for x in e.elts:
+                    if isinstance(x, ast.Starred):
+                        v = ev(x.value)
+                        if not isinstance(v, (list, tuple)):
+                            raise Skip
+                        out.extend(v)
+                    else:
+                        out.append(ev(x))
+                return out if isinstance(e, ast.List) else tuple(out)
+            if isinstance(e, ast.Call) and isinstance(e.func, ast.Name) and e.func.id in ("list", "tuple") and e.func.id not in call_models and len(e.args) == 1 and not e.keywords:
+                v = ev(e.args[0])
+                if not isinstance(v, (list, tuple)):
+                    raise Skip
+                return list(v) if e.func.id == "list" else tuple(v)
             if isinstance(e, ast.BinOp) and isinstance(e.op, ast.Add):
                 a, b = ev(e.left), ev(e.right)
                 if type(a) is type(b) and isinstance(a, (list, tuple, str)):
@@ -149,12 +161,57 @@ class Module:
             raise Skip
 
         for s in self.tree.body:
+            if isinstance(s, ast.AnnAssign) and isinstance(s.target, ast.Name) and s.value is not None:
+                s = ast.Assign(targets=[s.target], value=s.value)
             if isinstance(s, ast.Assign) and len(s.targets) == 1 and isinstance(s.targets[0], ast.Name):
                 try:
                     env[s.targets[0].id] = ev(s.value)
                 except Skip:
                     env.pop(s.targets[0].id, None)
+            elif isinstance(s, ast.AugAssign) and isinstance(s.target, ast.Name) and s.target.id in env:
+                # `xs += ys` extends a list IN PLACE (every alias sees it); on str / tuple it rebinds the name
+                nm = s.target.id
+                try:
+                    v = ev(s.value)
+                    cur = env[nm]
+                    if isinstance(s.op, ast.Add) and isinstance(cur, list) and isinstance(v, (list, tuple)):
+                        cur.extend(v)
+                    elif isinstance(s.op, ast.Add) and type(cur) is type(v) and isinstance(cur, (str, tuple)):
+                        env[nm] = cur + v
+                    else:
+                        raise Skip
+                except Skip:
+                    self._forget(env, nm)
+            elif isinstance(s, ast.Expr) and isinstance(s.value, ast.Call) and isinstance(s.value.func, ast.Attribute) and isinstance(s.value.func.value, ast.Name) and s.value.func.value.id in env:
+                # a method call on an evaluated container at module level: append / extend are applied, anything else may mutate it (forgotten)
+                nm, c = s.value.func.value.id, s.value
+                try:
+                    if isinstance(env[nm], list) and c.func.attr in ("append", "extend") and len(c.args) == 1 and not c.keywords:
+                        v = ev(c.args[0])
+                        if c.func.attr == "append":
+                            env[nm].append(v)
+                        elif isinstance(v, (list, tuple)):
+                            env[nm].extend(v)
+                        else:
+                            raise Skip
+                    elif isinstance(env[nm], (str, tuple, int)) or env[nm] is None:
+                        pass  # immutable
+                    else:
+                        raise Skip
+                except Skip:
+                    self._forget(env, nm)
+            elif isinstance(s, ast.Delete):
+                for t in s.targets:
+                    if isinstance(t, ast.Name):
+                        env.pop(t.id, None)
         return env
+
+    @staticmethod
+    def _forget(env, nm):
+        """drops `nm` and every name bound to the same (mutable) object"""
+        obj = env.get(nm)
+        for k in [k for k, v in env.items() if v is obj]:
+            env.pop(k, None)
 
 
 def free_names(fn: ast.FunctionDef) -> set[str]:
